@@ -1,11 +1,14 @@
 #!/bin/bash
 # try_seed.sh <seed-id> <prop> [harness-filter]: apply a stored seeded defect to /repo, run the quick check, undo.
+# The evidence file of the property is saved and restored: evidence must describe runs on the unchanged tree only.
 id=$1; prop=$2; filt=${3:-}
 cd /repo || exit 2
 git apply --check /verif/seeded/$id/patch.diff || { echo "PATCH DOES NOT APPLY"; exit 2; }
 git apply /verif/seeded/$id/patch.diff
 cd /verif
+[ -f evidence/$prop.json ] && cp evidence/$prop.json /tmp/evidence_$prop.save
 if [ -n "$filt" ]; then timeout 3000 ./bin/vcheck -prop $prop -tier quick -harness "$filt"; else timeout 3000 ./bin/vcheck -prop $prop -tier quick; fi
 rc=$?
+[ -f /tmp/evidence_$prop.save ] && mv /tmp/evidence_$prop.save evidence/$prop.json
 git -C /repo checkout -- .
 echo "exit=$rc  (repo status: $(git -C /repo status --short | wc -l) changed files)"
